@@ -3,6 +3,7 @@ import Spydr.Edif.Props.C05
 import Spydr.Edif.Props.C03Closure
 import Spydr.Edif.Props.C03Fragment
 import Spydr.Edif.Props.C05Denote
+import Spydr.Edif.Props.C05Struct
 #print axioms Spydr.Edif.C05.readS_flatten
 #print axioms Spydr.Edif.C05.multibit_merge
 #print axioms Spydr.Edif.C05.multibit_merge_general
@@ -48,3 +49,12 @@ import Spydr.Edif.Props.C05Denote
 #print axioms Spydr.Edif.C05.wf_resolves
 #print axioms Spydr.Edif.C05.edif_reader_spec_contents
 #print axioms Spydr.Edif.C05.portRef_resolves
+#print axioms Spydr.Edif.C05.reader_accepts_wellformed
+#print axioms Spydr.Edif.C05.reader_accepts_wellformed_sexp
+#print axioms Spydr.Edif.C05.parseCell_wellformed
+#print axioms Spydr.Edif.C05.multibitAdd_wellformed
+#print axioms Spydr.Edif.C05.hasDupPin_iff
+#print axioms Spydr.Edif.C05.Witness.not_all_instances_referenced
+#print axioms Spydr.Edif.C05.Witness.not_always_top
+#print axioms Spydr.Edif.C05.Witness.stem_merges_two_names
+#print axioms Spydr.Edif.C05.Witness.scalar_after_bus_rejected
